@@ -352,10 +352,10 @@ def find_urls(data: bytes) -> list[Node]:
             if close > -1:
                 end = start + close
                 group = group[:close]
-        if not is_url(group):
-            continue
         normalized, obfuscation = normalize_percent_encoding(group)
-        # The parts index into the node's value, so they are parsed from the normalised text
+        if not is_url(normalized):
+            continue
+        # The parts index into the node's value, so they are validated and parsed from the normalised text
         out.append(Node(URL_TYPE, normalized, obfuscation, start, end, children=parse_url(normalized)))
     return out
 
